@@ -11,7 +11,8 @@ use std::io::{Error, Read};
 
 // Parse a Number
 pub(crate) fn parse_number<R: Read>(scanner: &mut Scanner<R>) -> Result<Number, Error> {
-    let decimal = parse_decimal(scanner)?;
+    // The digits as written: going through an f64 here would round the value twice
+    let decimal = parse_decimal_text(scanner)?;
 
     let mut exponent: Option<String> = None;
     let mut unit: Option<&'static Unit> = None;
@@ -74,6 +75,18 @@ fn parse_unit<R: Read>(scanner: &mut Scanner<R>) -> Result<String, Error> {
 
 // Parse Decimal part of a number
 pub(crate) fn parse_decimal<R: Read>(scanner: &mut Scanner<R>) -> Result<f64, Error> {
+    let str = parse_decimal_text(scanner)?;
+
+    match str.parse::<f64>() {
+        Ok(num) => Ok(num),
+        Err(err) => {
+            scanner.make_generic_err(&format!("Invalid decimal '{str}'. Parse error: {err}"))
+        }
+    }
+}
+
+// The text of the decimal part of a number, without the '_' separators, checked to be a decimal
+fn parse_decimal_text<R: Read>(scanner: &mut Scanner<R>) -> Result<String, Error> {
     let mut id = Vec::new();
 
     while !scanner.is_eof && (scanner.is_digit() || scanner.is_any_of("_.-")) {
@@ -87,7 +100,7 @@ pub(crate) fn parse_decimal<R: Read>(scanner: &mut Scanner<R>) -> Result<f64, Er
     let str = String::from_utf8_lossy(&id).to_string();
 
     match str.parse::<f64>() {
-        Ok(num) => Ok(num),
+        Ok(_) => Ok(str),
         Err(err) => {
             scanner.make_generic_err(&format!("Invalid decimal '{str}'. Parse error: {err}"))
         }
